@@ -18,8 +18,10 @@ MidF(leaf) == <<Fld(1, "x", "def", TyStruct(leaf)), Fld(2, "xs", "opt", TyList(T
 RootF(mid) == <<Fld(1, "mid", "opt", TyStruct(mid)), Fld(2, "s", "def", STR), Fld(7, "ms", "opt", TySet(TyStruct(mid)))>>
 SubSeqs(s) == {SelectSeq(s, LAMBDA f : f.id \in S) : S \in SUBSET {s[i].id : i \in 1..Len(s)}}
 Extras(id) == {<<>>} \cup {<<Fld(id, "e", r, I32)>> : r \in {"req", "def", "opt"}} \cup {<<Fld(id, "e", "def", TyList(STR))>>}
-LeafTs == IF Full THEN {s \o x : s \in SubSeqs(LeafF), x \in Extras(3)} ELSE {LeafF, <<LeafF[1]>>, <<LeafF[2]>> \o <<Fld(3, "e", "def", I32)>>, <<Fld(3, "e", "req", I32)>>}
-MidKeep == IF Full THEN SUBSET {1, 2, 3, 4, 6} ELSE {{1, 2, 3, 4, 6}, {1, 4}, {2, 6}, {3, 4}, {}}
+\* (Full is the thorough configuration: about 0.7 million states; the complete product of all subsets and extras is 7.7 million and does not finish)
+LeafTs == IF Full THEN {s \o x : s \in SubSeqs(LeafF), x \in {<<>>, <<Fld(3, "e", "req", I32)>>, <<Fld(3, "e", "def", TyList(STR))>>}} ELSE {LeafF, <<LeafF[1]>>, <<LeafF[2]>> \o <<Fld(3, "e", "def", I32)>>, <<Fld(3, "e", "req", I32)>>,
+                                 <<LeafF[1]>> \o <<Fld(3, "e", "req", I32)>>}     \* a default-requiredness field in front of a required one
+MidKeep == {{1, 2, 3, 4, 6}, {1, 4}, {2, 6}, {3, 4}, {}} \cup (IF Full THEN {{1}, {2, 3}, {4, 6}} ELSE {})
 \* shareLeaf: the target's Mid refers to the source's Leaf definition itself
 Pairs ==
   {[structs |-> [Leaf |-> LeafF, Mid |-> MidF("Leaf"), Root |-> RootF("Mid"),
@@ -27,7 +29,7 @@ Pairs ==
                  MidT |-> SelectSeq(MidF(IF shareLeaf THEN "Leaf" ELSE "LeafT"), LAMBDA f : f.id \in mk) \o mx,
                  RootT |-> SelectSeq(RootF(IF shareMid THEN "Mid" ELSE "MidT"), LAMBDA f : f.id \in rk)],
     from |-> TyStruct("Root"), to |-> TyStruct("RootT")] :
-     lt \in LeafTs, mk \in MidKeep, mx \in (IF Full THEN Extras(5) ELSE {<<>>, <<Fld(5, "e", "def", I32)>>}),
+     lt \in LeafTs, mk \in MidKeep, mx \in ({<<>>, <<Fld(5, "e", "def", I32)>>} \cup (IF Full THEN {<<Fld(5, "e", "req", I32)>>} ELSE {})),
      shareLeaf \in BOOLEAN, shareMid \in BOOLEAN, rk \in {{1, 2, 7}, {1}, {2, 7}}}
   \cup {[structs |-> [Leaf |-> LeafF, Mid |-> MidF("Leaf"), Root |-> RootF("Mid"), LeafT |-> LeafF, MidT |-> MidF("Leaf"), RootT |-> RootF("Mid")],
          from |-> TyStruct("Root"), to |-> TyStruct("Root")]}
